@@ -576,13 +576,24 @@ func isAllowedMethod(req *http.Request, route allowedRoute) bool {
 }
 
 func isAllowedPath(req *http.Request, route allowedRoute) bool {
-	matches := route.pathRegex.MatchString(requestutil.GetRequestURI(req))
+	matches := route.pathRegex.MatchString(requestPath(req))
 
 	if route.negate {
 		return !matches
 	}
 
 	return matches
+}
+
+// requestPath returns the path of the request URI (or of X-Forwarded-Uri in
+// reverse-proxy mode) without its query string or fragment, so that skip-auth
+// rules are matched against the path only.
+func requestPath(req *http.Request) string {
+	uri := requestutil.GetRequestURI(req)
+	if i := strings.IndexAny(uri, "?#"); i >= 0 {
+		return uri[:i]
+	}
+	return uri
 }
 
 // IsAllowedRoute is used to check if the request method & path is allowed without auth
